@@ -136,6 +136,8 @@ def run(ctx):
                                      "or a call failed in the implementation trace"})
         if (not ok or ctx.failures) and not ctx.violations:
             search(ctx, exe)
+    from vf.props import C01
+    C01.runtime_layer(ctx, "mutex", "mutex on the whole runtime", [2, 2, 3, 3, 1, 6, 7], quick_n=120, seedoff=3)
     core.init_contract(ctx, ["fiber_mutex"])  # rt/h_init.c: real init on dirty memory
     core.finish(ctx, extra_assumptions=ASSUME)
 
@@ -169,6 +171,9 @@ def search(ctx, exe):
 
 
 def replay(ctx, payload):
+    if payload.get("harness") == "kernel":
+        from vf.props import C01
+        return C01.replay(ctx, payload)
     if payload.get("harness") == "h_init":
         return core.replay_init(ctx, payload)
     exe = build(ctx)
